@@ -177,7 +177,10 @@ def oracles(ctx: Ctx):
                               key="tamper.real.subgroup")
                 break
     ctx.extra["small_subgroup_forgeries"] = sub
-    ctx.oracle_runs += keyless + sub
+    if keyless == 0 or sub == 0:
+        ctx.violation("no-failing-input-found", "oracle:tamper.real",
+                      {"why": f"the forgery families could not be built any more (keyless {keyless}, small-subgroup {sub}): the blob or key classes changed shape"},
+                      key="tamper.real.families")
     ctx.oracle_runs += n
     ctx.extra["tamper_real"] = {"flips": n, "still_same_plaintext": same, "key_aware_forgeries": forged}
 
